@@ -812,6 +812,7 @@ type c02Plan struct {
 	mode    int    // 0 whole polka now, 2 all but one now / one late, 3 split, 4 all late, 5 polka completes after the precommit, -1 random
 	lateNow bool   // deliver every held-back batch before this round's proposal
 	commit  bool   // the others precommit the target (else nil)
+	future  string // after the node's precommit: the others' prevotes of the NEXT round for this block arrive (the node skips ahead)
 }
 
 // runLockStory is a round-structured policy aimed at the lock rules: in every round a proposal
@@ -850,13 +851,14 @@ func (h *c02Harness) runLockStory(r *vg.Rand, maxSteps int, script []c02Plan) {
 			sendBatch(r.Intn(len(late)))
 		}
 	}
-	polkaAt := map[string]int32{} // last round in which +2/3 of the others were asked to prevote the block
+	polkaAt := map[string]int32{}   // last round in which +2/3 of the others were asked to prevote the block
+	alias := map[string]*c02Block{} // a scripted name bound to the node's OWN proposal when the node is the proposer
 	for len(h.steps) < maxSteps && !h.panicked {
 		before := len(h.steps)
 		cs := h.cs
 		if cs.Step == cstypes.RoundStepNewHeight {
 			fireStep(cstypes.RoundStepNewHeight)
-			late, polkaAt = nil, map[string]int32{}
+			late, polkaAt, alias = nil, map[string]int32{}, map[string]*c02Block{}
 			continue
 		}
 		c := h.candidates(r)
@@ -877,6 +879,9 @@ func (h *c02Harness) runLockStory(r *vg.Rand, maxSteps int, script []c02Plan) {
 			return B
 		}
 		named := func(n string) *c02Block {
+			if e, ok := alias[n]; ok {
+				return e
+			}
 			switch n {
 			case "A":
 				return A
@@ -895,6 +900,13 @@ func (h *c02Harness) runLockStory(r *vg.Rand, maxSteps int, script []c02Plan) {
 		// proposal
 		h.ensureProposers()
 		signer := int(h.props[height][int(round)%24])
+		if signer == h.me && (plan.propose == "A" || plan.propose == "B") && alias[plan.propose] == nil &&
+			cs.ProposalBlock != nil && cs.ProposalBlockParts != nil && cs.Proposal != nil && cs.Proposal.Round == round {
+			// the node proposed its own block in a scripted round: the script's name stands for that block
+			if e := h.byPSH[string(cs.ProposalBlockParts.Header().Hash)]; e != nil {
+				alias[plan.propose] = e
+			}
+		}
 		skipProp := plan.propose == "none" || (plan.propose == "" && r.Chance(20))
 		if signer != h.me && !skipProp && cs.Step <= cstypes.RoundStepPropose {
 			e := named(plan.propose)
@@ -904,7 +916,7 @@ func (h *c02Harness) runLockStory(r *vg.Rand, maxSteps int, script []c02Plan) {
 				}
 			}
 			polr := int32(-1)
-			if pr, ok := polkaAt[string(e.block.Hash())]; ok && (plan.propose != "" || r.Chance(60)) {
+			if pr, ok := polkaAt[string(e.block.Hash())]; ok && pr < round && (plan.propose != "" || r.Chance(60)) {
 				polr = pr
 			}
 			h.sendProposal(signer, height, round, polr, bidOf(e), false, "story/proposal")
@@ -987,6 +999,13 @@ func (h *c02Harness) runLockStory(r *vg.Rand, maxSteps int, script []c02Plan) {
 		for _, v := range afterPrecommit {
 			h.sendVote(v, "p2", "story/prevote-after-precommit")
 		}
+		if plan.future != "" && h.cs.Height == height && !h.panicked {
+			fb := bidOf(named(plan.future))
+			for _, i := range others {
+				h.sendVote(h.mkVote(r, i, tmproto.PrevoteType, height, round+1, fb), "p2", "story/prevote-next-round")
+			}
+			polkaAt[string(fb.Hash)] = round + 1
+		}
 		if plan.mode < 0 {
 			someLate(30)
 		}
@@ -1027,7 +1046,7 @@ func c02Script(r *vg.Rand) ([]c02Plan, string) {
 		return g
 	}
 	lock := c02Plan{propose: "A", target: "A", mode: 0}
-	switch r.Intn(5) {
+	switch r.Intn(6) {
 	case 0: // lock A; polka for B in a later round held back; relock A; the stale polka arrives; B proposed
 		s := []c02Plan{lock}
 		s = append(s, gap()...)
@@ -1049,6 +1068,13 @@ func c02Script(r *vg.Rand) ([]c02Plan, string) {
 		s = append(s, c02Plan{propose: "B", target: "B", mode: 0})
 		s = append(s, c02Plan{propose: "A", target: "A", mode: 0})
 		return s, "lock-change"
+	case 4: // lock A; the whole polka for B of the NEXT round arrives while still in the lock round (no unlock in
+		// addVote); the node skips ahead, gets B, and must move its lock to B in enterPrecommit; then A again
+		s := []c02Plan{{propose: "A", target: "A", mode: 0, future: "B"}}
+		s = append(s, c02Plan{propose: "B", target: "B", mode: 0})
+		s = append(s, c02Plan{propose: "A", target: "A", mode: 3})
+		s = append(s, c02Plan{propose: "A", target: "nil", mode: 0})
+		return s, "next-round-polka-moves-the-lock"
 	case 3: // lock A; an OLD polka for B (round before the lock) arrives late; B proposed
 		s := []c02Plan{{propose: "B", target: "B", mode: 4}}
 		s = append(s, gap()...)
